@@ -390,6 +390,11 @@ def field_array_extent(v, t, roots, fext, earr, depth=0):
                 for x in flat(eff):
                     if x["e"] == "store" and x["op"] == "=" and x["lv"][0] == "fld" and x["lv"][1] == sym.idx(this, ZERO) and x["val"][0] == "sym":
                         xm.setdefault(x["val"], sym.fld(X, x["lv"][2]))
+            if len(xctor) == 1:
+                for p_ in xctor[0].params:                 # an argument X's constructor did not keep: named by the record it points to
+                    r_ = _record_in_type(v, p_["t"])
+                    if sym.sym(p_["n"]) not in xm:
+                        xm[sym.sym(p_["n"])] = sym.sym("$" + r_) if r_ in ("TLweParams", "TGswParams") else ("unk", "ctor-arg:" + p_["n"])
             for nm, a in zip(cparams, ea[2]):
                 m[sym.sym(nm)] = sym.subst(a, xm)
     if not m:
@@ -402,11 +407,20 @@ def field_array_extent(v, t, roots, fext, earr, depth=0):
                 m.setdefault(x["val"], sym.fld(O, x["lv"][2]))
     optr = O[1] if O[0] == "idx" and O[2] == ZERO else sym.addr(O)
     m[this] = optr
-    out = sym.subst(ext, m)
-    known = {r_ for r_ in roots}
-    if any(a[0] == "sym" and a not in known and a != this for a in sym.atoms(out)):
-        return None          # a constructor argument that is not kept in the object: extent not expressible here
-    return out
+    # a constructor argument that is not kept in the object: a pointer to a parameter object is named by its record ("$TLweParams":
+    # the parameter set the object was built for, identified with the caller's by the consistency assumption of R9); anything else
+    # makes the extent inexpressible here.  (The constructor's parameter NAMES must not be confused with the current function's.)
+    ctor_ = [f for f in v.defined() if f.get("record") == rec and f.get("kind") == "ctor" and not f.get("implicit") and not f.get("copy")]
+    ptypes = {sym.sym(p_["n"]): p_["t"] for p_ in ctor_[0].params} if len(ctor_) == 1 else {}
+    for nm in cparams:
+        s_ = sym.sym(nm)
+        if s_ not in m:
+            r_ = _record_in_type(v, ptypes.get(s_, ""))
+            if r_ in ("TLweParams", "TGswParams"):
+                m[s_] = sym.sym("$" + r_)
+            else:
+                return None
+    return sym.subst(ext, m)
 
 
 def local_arrays(effs):
